@@ -4,11 +4,17 @@ RULE = ("TLC explores WheelImpl (slots/circle/diff algorithm of timingwheel.go) 
         "abstract Wheel spec and prints one operation history per distinct reachable implementation state; "
         "each is replayed on the real TimingWheel (harness ticker) and flushed; seeded random histories over "
         "wheel sizes 1..300 with delays up to 3 revolutions are added; every recorded trace is validated by "
-        "TLC against Wheel.tla. distinct = distinct operation histories executed.")
+        "TLC against Wheel.tla. Callback windows: TLC explores WheelCbImpl (timers map, slot lists and firing "
+        "goroutines kept apart; operations issued from inside an executing callback and from outside while "
+        "callbacks are executing or queued) against WheelCb and prints one history per distinct implementation "
+        "state that has a callback window in its past; each is replayed with every execute callback held at a "
+        "gate, plus seeded random histories with held callbacks; validated by TLC against WheelCb.tla. "
+        "distinct = distinct operation histories executed.")
 
 FAM = "wheel"
 PKG = "core/collection"
 DRV = ["zz_verif_wheel_test.go"]
+DRV_CB = ["zz_verif_wheel_test.go", "zz_verif_c12_cb_test.go"]
 
 
 def check(run):
@@ -45,16 +51,82 @@ def check(run):
     run.evaluations += run.traces - n0
     for i in range(run.traces - n0):
         run.distinct.add(("random", run.seed, i))
+    check_callback_windows(run, thorough)
+
+
+def check_callback_windows(run, thorough):
+    """Operations that land between the tick that fires a timer and the end of its callback: issued by the
+    callback itself (re-arm), by another callback, or by another goroutine while the callback is held or still
+    queued behind a slow one (WheelCb / WheelCbImpl)."""
+    run.assumptions += [
+        "callback windows: every operation line is written before the call, one call in flight at a time; "
+        "'settled' (nothing owed) is only recorded when every firing the run loop announced has entered its "
+        "callback; bounded waits never decide anything",
+    ]
+    # design level: refinement WheelCbImpl => WheelCb (map, slot lists, firing goroutines apart; operations from
+    # inside and during callbacks).  In the quick tier the generation run below IS the exhaustive check for N=2,
+    # 6 operations (its cfg carries every invariant); the thorough tier adds the larger configurations.
+    run.model_check(FAM, "WheelCbImpl", "WheelCbImplBugEnd.cfg", workers=2, expect="violation",
+                    note="timers-map cleanup deferred to the end of the callback violates Observable")
+    if thorough:
+        run.model_check(FAM, "WheelCbImpl", "WheelCbImplMC.cfg", workers=4,
+                        note="refinement WheelCbImpl => WheelCb, N=2, steps<=5, 6 ops")
+        run.model_check(FAM, "WheelCbImpl", "WheelCbImplBugBegin.cfg", workers=2, expect="violation",
+                        note="timers-map cleanup deferred to the firing goroutine violates Observable")
+        run.model_check(FAM, "WheelCbImpl", "WheelCbImplMCfull.cfg", workers=8,
+                        note="refinement, N=2, 6 ops, full view (entry identities, tombstones)")
+        run.model_check(FAM, "WheelCbImpl", "WheelCbImplMC3.cfg", workers=8, note="refinement, N=3, 6 ops")
+        run.model_check(FAM, "WheelCbImpl", "WheelCbImplMC7.cfg", workers=8, note="refinement, N=2, 8 ops")
+    gens = [("WheelCbImplGen2.cfg", 2, 4)]
+    if thorough:
+        gens = [("WheelCbImplGen27.cfg", 2, 4), ("WheelCbImplGen3.cfg", 3, 7), ("WheelCbImplGen1.cfg", 1, 3)]
+    for cfg, n, ms in gens:
+        beh = run.generate(FAM, "WheelCbImpl", cfg, workers=1)
+        for b in beh:
+            run.distinct.add(("cb", n, str(b)))
+        run.evaluations += len(beh)
+        tr = run.go_driver(PKG, DRV_CB, "TestVerifWheelCbReplay$", inp=beh,
+                           env={"VERIF_WHEEL_N": n, "VERIF_WHEEL_MAXSTEPS": ms})
+        run.validate(FAM, "WheelCbTrace", "WheelCbTrace.cfg", tr, label="cb-replay-N%d" % n)
+    tr = run.go_driver(PKG, DRV_CB, "TestVerifWheelCbRandom$")
+    n0 = run.traces
+    run.validate(FAM, "WheelCbTrace", "WheelCbTrace.cfg", tr, label="cb-random")
+    run.evaluations += run.traces - n0
+    for i in range(run.traces - n0):
+        run.distinct.add(("cb-random", run.seed, i))
 
 LEVEL_TEXT = ("Exhaustive TLC model checking that the slot/circle/diff algorithm refines the abstract wheel (N<=4), "
+              "and that the implementation with map, slot lists and firing goroutines modelled apart refines the "
+              "wheel with asynchronous delivery (operations from inside and during callbacks, N<=3), "
               "plus conformance: every TLC-reachable implementation state is replayed on the real TimingWheel and "
-              "random long histories (sizes 1..300, delays up to 3 revolutions) are validated by TLC against Wheel.tla.")
+              "random long histories (sizes 1..300, delays up to 3 revolutions, callbacks held at gates and issuing "
+              "operations themselves) are validated by TLC against Wheel.tla / WheelCb.tla.")
 LEVEL_NOTE = ("Trusted: TLC/SANY, the Go toolchain, the harness ticker + hook ordering (DESIGN.md A.5). Delays < one "
               "interval are outside the property's premise. Bounded: N<=4 exhaustively at design level; real code "
-              "sampled for larger N.")
-TECHNIQUE = "TLA+ spec (Wheel/WheelImpl), TLC refinement check, TLC-generated state-cover replay + TLC trace validation"
+              "sampled for larger N. Operations after Drain are not exercised (Drain is the shutdown path). While a "
+              "callback is held and another firing of the same tick has not entered its callback yet, a late firing "
+              "is only noticed at the next point where every announced callback has started.")
+TECHNIQUE = "TLA+ spec (Wheel/WheelImpl, WheelCb/WheelCbImpl), TLC refinement check, TLC-generated state-cover replay + TLC trace validation"
 DESIGN_REF = "DESIGN.md Part B C12"
 
 
 def replay(run, path):
-    run.replay(FAM, "WheelTrace", "WheelTrace.cfg", path)
+    # traces of the callback-window drivers carry "a" (actor) / "cb" / "settled" lines and no "fired" field
+    import json
+    mod = "WheelTrace"
+    for ln in open(path):
+        ln = ln.strip()
+        if not ln:
+            continue
+        ev = json.loads(ln)
+        if ev.get("e") == "header":
+            if "WheelCbTrace" in ev.get("spec", ""):
+                mod = "WheelCbTrace"
+                break
+            continue
+        if ev.get("e") in ("cb", "cbend", "settled") or "a" in ev:
+            mod = "WheelCbTrace"
+            break
+        if "fired" in ev:
+            break
+    run.replay(FAM, mod, mod + ".cfg", path)
